@@ -319,10 +319,10 @@ def alias_info(name):
     return (-(1 << (bits - 1)), (1 << (bits - 1)) - 1) if signed else (0, (1 << bits) - 1)
 
 def pick_int(rng, lo, hi, small=False):
-    if small:
-        cands = [v for v in (0, 1, 2, 3) if lo <= v <= hi]
-        if cands and rng.random() < 0.9:
-            return rng.choice(cands)
+    if small:                       # the value is used as a length / count / selector by another member
+        cands = [v for v in (0, 1, 2, 3, 4, 8) if lo <= v <= hi]
+        if cands:
+            return rng.choice(cands) if rng.random() < 0.93 else rng.choice([v for v in (-1, 16, 40, 64) if lo <= v <= hi] or cands)
     r = rng.random()
     if r < 0.5:
         return rng.choice([v for v in (lo, hi, 0, 1, -1, 127, 128, 255, 256, lo + 1, hi - 1) if lo <= v <= hi])
